@@ -2049,3 +2049,67 @@ def position_pair_rule(ctx, res, rule: str, modules) -> None:
                             f"(`{ast.unparse(gl)}`): a byte column is turned into a character column by the text in front of it ON ITS LINE; for a node that spans lines, "
                             "non-ASCII text on only one of the two lines shifts the offset", function=f.qualname)
     res.analysed[f"line/column pairs:{rule}"] = n
+
+
+# ---------------------------------------------------------------------------------------------------------------------
+# rope's line model: lines end at "\n" and nowhere else
+
+_LINE_MODEL_SHARED = ("rope.base.codeanalyze", "rope.refactor.sourceutils")
+
+
+def _splitlines_calls(tree: ast.AST):
+    """(call, allowed reason or None) for every `<text>.splitlines(...)` in tree"""
+    parents = {}
+    for p in ast.walk(tree):
+        for c in ast.iter_child_nodes(p):
+            parents[id(c)] = p
+    out = []
+    for c in ast.walk(tree):
+        if not (isinstance(c, ast.Call) and isinstance(c.func, ast.Attribute) and c.func.attr == "splitlines"):
+            continue
+        reason = None
+        p = parents.get(id(c))
+        if isinstance(p, ast.Call) and any(a is c for a in p.args) and (dotted(p.func) or "").split(".")[0] == "difflib":
+            reason = "argument of a difflib call: the pieces are shown to the user, no position is computed from them"
+        recv = ast.unparse(c.func.value)
+        if reason is None and "doc" in recv.lower():
+            reason = "a docstring prepared for display, no source code"
+        out.append((c, reason))
+    return out
+
+
+def line_model_rule(ctx, res, rule: str, modules) -> None:
+    """A line of Python source ends at "\\n" (rope normalises "\\r\\n" and "\\r" when it reads a file); line numbers of the `ast`,
+    of rope's SourceLinesAdapter and of the logical-line finders count exactly those.  `str.splitlines()` also breaks at form
+    feed, vertical tab, \\x1c-\\x1e, \\x85, U+2028 and U+2029 -- ordinary characters inside a string literal or a comment (and the
+    form feed is the traditional page separator on a line of its own).  A list cut with splitlines runs ahead of every line
+    number computed elsewhere; text re-indented piece by piece gets the indentation INSIDE the literal.  So: in the modules the
+    property is anchored in (and in the shared text utilities) no source text is cut with `splitlines`; the two accepted uses
+    are named (arguments of difflib, docstrings for display)."""
+    idx = ctx.idx
+    # detector self-check: must see the call in both positions
+    probe = ast.parse("def f(s, d):\n    a = s.splitlines(True)\n    return difflib.unified_diff(d.splitlines(True), a)\n")
+    got = [(r is None) for _, r in _splitlines_calls(probe)]
+    if sorted(got) != [False, True]:
+        raise AnalysisError(f"line-model detector self-check failed: {got}")
+    mods = [m for m in dict.fromkeys(list(modules) + list(_LINE_MODEL_SHARED)) if m in idx.units]
+    if len(mods) < len(_LINE_MODEL_SHARED):
+        raise AnalysisError(f"anchor={rule}: modules not found {sorted(set(modules) - set(idx.units))}")
+    n_bad = allowed = 0
+    for m in mods:
+        u = idx.units[m]
+        for c, reason in _splitlines_calls(u.tree):
+            if reason is not None:
+                allowed += 1
+                continue
+            n_bad += 1
+            fn = next((f for f in idx.functions.values() if f.unit is u and f.node.lineno <= c.lineno <= (f.node.end_lineno or c.lineno) and f.parent is None), None)
+            name = fn.qualname.split(".", 2)[-1] if fn else m
+            res.fail(rule, f"{name}|source-text-cut-at-newlines-only#{n_bad}", f"{u.rel}:{c.lineno}",
+                     f"`{ast.unparse(c)[:70]}` cuts source text with str.splitlines(), which also breaks at form feed, \\x1c-\\x1e, \\x85, U+2028 and U+2029: the "
+                     "interpreter, the ast's line numbers and rope's own line table count \"\\n\" only, so after a `^L` page separator (or one of these characters in a "
+                     "string or comment) the pieces run one line ahead -- a different statement is cut, measured or re-indented than the one the line number names",
+                     function=fn.qualname if fn else None)
+    res.add(rule, "modules|no-source-text-cut-with-splitlines", n_bad == 0, mods[0].replace(".", "/") + ".py:1",
+            f"{len(mods)} modules cut source text at \"\\n\" only ({allowed} accepted use(s): difflib arguments / docstrings)" if n_bad == 0 else
+            f"{n_bad} place(s) cut source text with str.splitlines()", modules=mods)
